@@ -40,6 +40,7 @@ func init() {
 	props["C04"] = func(r *Rec) {
 		runC34(r, "C04")
 		recFor(r, "C04")
+		c10For(r, "C04", map[string]string{"C10/token-registry/stake-caps-above-100-percent": "C04/solvency/stake-caps-above-100-percent"})
 		c20For(r, "C04", map[string]string{"C20/escrow/module-below-recorded-bonds": "C04/solvency/layer2-escrow", "C20/lp-msg/free-money": "C04/solvency/layer2-lp-free-money"})
 	}
 }
@@ -177,6 +178,27 @@ func (e *c34) checkC04(ctx sdk.Context, where string) {
 	need(govtypes.ModuleName, owed, "escrowed identity tips")
 	// fee collector: the recorded treasury
 	need(authtypes.FeeCollectorName, app.DistrKeeper.GetFeesTreasury(ctx), "fee treasury")
+	// fee collector: the rewards credited to delegators and not claimed yet are paid out of it (ClaimRewards). The per-denom
+	// rounding of IncreasePoolRewards can over-credit by a unit per denomination and delegator (recorded finding of C10):
+	// a shortfall of that size is left to C10, a larger one is reported here.
+	owed = sdk.Coins{}
+	nRew := 0
+	for _, rw := range app.MultiStakingKeeper.GetAllDelegatorRewards(ctx) {
+		owed = owed.Add(rw.Rewards...)
+		nRew++
+	}
+	have := app.BankKeeper.GetAllBalances(ctx, e.modAddr(authtypes.FeeCollectorName))
+	for _, c := range owed {
+		short := c.Amount.Sub(have.AmountOf(c.Denom))
+		if short.IsPositive() {
+			msg := fmt.Sprintf("%s %s: the fee collector holds %s%s but delegators are credited %s%s of unclaimed rewards", e.lab, where, have.AmountOf(c.Denom), c.Denom, c.Amount, c.Denom)
+			if short.LTE(sdk.NewInt(int64(4 * (nRew + 1)))) {
+				e.r.Known("C10/increase-pool-rewards/per-denom-rounding-over-credits", msg)
+			} else {
+				e.r.Fail("C04/solvency/fee_collector-unclaimed-rewards", msg, nil)
+			}
+		}
+	}
 }
 
 func c34KnownInsolvency(module, what string) string { return "" }
@@ -256,6 +278,7 @@ func c34History(r *Rec, prop string, h int, nBlocks int) {
 	var basketID uint64
 	dapps := []string{}
 	staleAt, staleStage, staleReq := 2+r.Rng.Intn(6), 0, uint64(0)
+	capAt := 3 + r.Rng.Intn(8)
 	reimpAt := -1
 	if h%3 == 1 {
 		reimpAt = 4 + r.Rng.Intn(10)
@@ -381,6 +404,51 @@ func c34History(r *Rec, prop string, h int, nBlocks int) {
 					}
 					_, err := e.gs.RequestIdentityRecordsVerify(sdk.WrapSDKContext(ctx), govtypes.NewMsgRequestIdentityRecordsVerify(A[who], A[ver], []uint64{recs[0].Id}, sdk.NewInt64Coin("ukex", int64(250+j))))
 					return err
+				}})
+			}
+		}
+		// a fourth scripted strand (every fourth history): the staking settings of the token registry change while stakes
+		// exist. ubtc (reward cap 25 %) is staked, then its staking is switched off - its cap and the shares in the pools
+		// stay -, then governance tries to make xeth stakeable with a cap of 50 %: with ukex at 50 % the caps of the three
+		// tokens held in pools would add up to 125 % of every reward. xeth is staked (if that was accepted) and rewards are
+		// allocated: the fee collector must cover what the delegators are credited.
+		if h%4 == 2 && b >= capAt && b < capAt+4 {
+			setStake := func(denom string, enabled bool, capPct int64) c34Op {
+				return c34Op{"token-stake-settings", sudo, func(ctx sdk.Context) error {
+					ti := app.TokensKeeper.GetTokenInfo(ctx, denom)
+					if ti == nil {
+						return fmt.Errorf("no token info")
+					}
+					ti.StakeEnabled, ti.StakeCap = enabled, sdk.NewDecWithPrec(capPct, 2)
+					return app.TokensKeeper.UpsertTokenInfo(ctx, *ti)
+				}}
+			}
+			del := func(who int, denom string, amt int64) c34Op {
+				return c34Op{"delegate", who, func(ctx sdk.Context) error {
+					_, err := e.ms.Delegate(sdk.WrapSDKContext(ctx), &mstypes.MsgDelegate{DelegatorAddress: A[who].String(), ValidatorAddress: sdk.ValAddress(A[0]).String(), Amounts: sdk.NewCoins(sdk.NewInt64Coin(denom, amt))})
+					return err
+				}}
+			}
+			switch b - capAt {
+			case 0:
+				ops = append(ops, del(1, "ukex", 1_000_000), del(2, "ubtc", 1_000_000))
+			case 1:
+				ops = append(ops, setStake("ubtc", false, 25), setStake("xeth", true, 50))
+			case 2:
+				ops = append(ops, del(3, "xeth", 1_000_000))
+			}
+			if b-capAt >= 2 {
+				ops = append(ops, c34Op{"pool-rewards", sudo, func(ctx sdk.Context) error {
+					if err := app.BankKeeper.SendCoinsFromAccountToModule(ctx, A[sudo], authtypes.FeeCollectorName, ukex(1_000_000)); err != nil {
+						return err
+					}
+					cons := sdk.ConsAddress(w.valPriv[0].PubKey().Address())
+					snap := app.DistrKeeper.GetSnapPeriod(ctx)
+					for j := int64(0); j < snap && ctx.BlockHeight()-j >= 1; j++ {
+						app.DistrKeeper.SetValidatorVote(ctx, cons, ctx.BlockHeight()-j)
+					}
+					app.DistrKeeper.AllocateTokens(ctx, 0, 0, cons, nil)
+					return nil
 				}})
 			}
 		}
